@@ -93,6 +93,30 @@ func checkC01(r *run, m *PacketModel) (CaseInfo, error) {
 		}
 	}
 
+	// a Packet that decoded a packet WITH extensions decodes this one; when this one has none, the first extension
+	// set afterwards must be the only one (entries hidden behind a cleared X flag would come back here)
+	{
+		withExt := []byte{0x90, 0x60, 0x00, 0x01, 0, 0, 0, 1, 0, 0, 0, 2, 0xBE, 0xDE, 0x00, 0x02, 0x10, 0xAA, 0x21, 0xBB, 0xCC, 0x00, 0x00, 0x00, 0x99}
+		var sq rtp.Packet
+		if err := sq.Unmarshal(withExt); err != nil {
+			return ci, failf("harness: packet with two one-byte extensions rejected: %v", err)
+		}
+		if err := sq.Unmarshal(clone(buf)); err != nil {
+			return ci, failf("Unmarshal into a Packet that had decoded extensions rejects the packet's own Marshal output: %v", err)
+		}
+		if err := m.comparePacket(&sq, "Unmarshal(Marshal(p)) into a Packet that had decoded a packet with extensions"); err != nil {
+			return ci, err
+		}
+		if m.ExtKind == "none" {
+			if err := sq.SetExtension(5, []byte{0x55}); err != nil {
+				return ci, failf("SetExtension(5) on a decoded packet without extensions: %v", err)
+			}
+			if ids := sq.GetExtensionIDs(); len(ids) != 1 || ids[0] != 5 {
+				return ci, failf("a Packet decoded extensions, then this packet (no X bit), then SetExtension(5): ids %v, want [5] (elements of the earlier packet came back)", ids)
+			}
+		}
+	}
+
 	// a receiver that was edited between two decodes (a forwarder strips an extension, then the next packet
 	// arrives in the same Packet): the second decode must give back every field again
 	{
@@ -225,7 +249,7 @@ func compareWire(m *PacketModel, w *rtpwire.Packet, canonical bool) error {
 	return nil
 }
 
-const ruleC01 = "rapid draws well-formed Packet models (version 0-3, marker, PT 0-127, sequence/timestamp/SSRC biased to 0, 1 and the maxima, 0-15 CSRCs, no/one-byte/two-byte/legacy extension built with SetExtension incl. empty two-byte values, 16-byte one-byte values, ids 1-14 / 1-255, a two-byte block filled to 64 KiB in one case of 150 and legacy values of up to 65535 words, payload 0-1500 B or (one case in 200) 64-70 KiB, nil or empty payload, padding 0 or 1-255); oracle: MarshalSize = RFC size of the model, Marshal, a second Marshal after the caller overwrote the first result, the independent RFC 3550/8285 parser reads the model back from the encoder output, Unmarshal into a fresh Packet and into a Packet that decoded another packet before (also from one shared receive buffer, and into a Packet edited with DelExtension after an earlier decode) gives back every field, Header.Marshal/Unmarshal likewise; a quarter of the RFC 8285 models are also laid out as a wire image that repeats an extension id and taken through Unmarshal, Marshal, Unmarshal; non-trivial = has extension, CSRC, padding or an empty payload; distinct = FNV-64 of the JSON case"
+const ruleC01 = "rapid draws well-formed Packet models (version 0-3, marker, PT 0-127, sequence/timestamp/SSRC biased to 0, 1 and the maxima, 0-15 CSRCs, no/one-byte/two-byte/legacy extension built with SetExtension incl. empty two-byte values, 16-byte one-byte values, ids 1-14 / 1-255, a two-byte block filled to 64 KiB in one case of 150 and legacy values of up to 65535 words, payload 0-1500 B or (one case in 200) 64-70 KiB, nil or empty payload, padding 0 or 1-255); oracle: MarshalSize = RFC size of the model, Marshal, a second Marshal after the caller overwrote the first result, the independent RFC 3550/8285 parser reads the model back from the encoder output, Unmarshal into a fresh Packet and into a Packet that decoded another packet before (also from one shared receive buffer, into a Packet edited with DelExtension after an earlier decode, and into one that had decoded a packet with extensions - followed by a SetExtension when this packet has none) gives back every field, Header.Marshal/Unmarshal likewise; a quarter of the RFC 8285 models are also laid out as a wire image that repeats an extension id and taken through Unmarshal, Marshal, Unmarshal; non-trivial = has extension, CSRC, padding or an empty payload; distinct = FNV-64 of the JSON case"
 
 func TestC01(t *testing.T) {
 	r := begin(t, "C01", "exploration", ruleC01)
